@@ -13,7 +13,7 @@ T_E = "bounded-exhaustive enumeration of the input space, every case executed on
 NOTE = "Trusted: the reference lexer/parser/interpreter/MD5-scheme/exact-Fraction partition in mc/ref (self-checked at setup by round trip, RFC 1321 answers and brute force). "
 CHECKS = {
     "C01": (MC, "explicit-state BFS over evaluator histories (real objects, canonical state = model + implementation fingerprint) + exhaustive product of interpreter-process environments",
-            "BFS to a fixpoint over new/recompile/call histories on 2 (thorough 3) evaluator slots and 5 texts: every call equals a fresh evaluator and the reference scheme, and every probe table is unchanged after every transition; the same 10k-row assignment transcript is recomputed from text in child interpreters for PYTHONHASHSEED x locale x PYTHONUTF8 x cwd x -O (9 quick / 129 thorough) and must be identical.",
+            "BFS to a fixpoint over new/recompile/call histories on 2 (thorough 3) evaluator slots and 5 texts: every call equals a fresh evaluator and the reference scheme, and every probe table is unchanged after every transition; the same 10k-row assignment transcript is recomputed from text in child interpreters for PYTHONHASHSEED x locale x PYTHONUTF8 x cwd x -O (16 quick / 137 thorough, incl. fast clock, clock offset, decimal context, warnings-as-errors, recursion limit, GC off, junk values for every environment variable the library mentions) and must be identical; deep cyclic recompile histories (period up to 300 / 513 texts), bulk histories (70 000 / 300 000 units, recompile, same units again) and twin / fingerprint-collision pairs are replayed against the reference scheme.",
             NOTE + "Not covered: other platforms / Python versions, locales not installed.", "3/C01"),
     "C02": (MC, T_E,
             "Every conditional shape with <=6 (thorough <=8) predicates x every truth assignment, every boolean tree with <=4 (<=5) atoms in three parenthesisations, every operator x operand form x literal kind x boundary value, and the operator-pair cross product are compiled by the real pipeline and evaluated; each result must equal the reference interpreter's selected return statement or the unroutable error. Complete inside the stated bounds.",
@@ -43,7 +43,7 @@ CHECKS = {
             "Every unit of the id set is evaluated under all 1.2k (thorough 11k) weight vectors, relabelled groups and every return statement of all multi-return shapes with <=3 predicates; all observed groups of one unit must be explained by one hash position, the published one; two-group ramps are also compared pairwise.",
             NOTE + "One grid point of slack per boundary.", "3/C10"),
     "C11": (MC, "explicit-state BFS over evaluator histories executed on real objects, canonical-state deduplication, invariant evaluated in every state",
-            "new / recompile / call over 2 (3) slots and 7 texts (same name other weights, other trivia, other fields; lexically, syntactically and compile-time invalid), BFS until no new (model, implementation-fingerprint) state appears; after every transition every evaluator is probed on every input against a fresh evaluator of its last accepted text, every construction/recompile is re-issued (raise again / no-op).",
+            "new / recompile / call over 2 (3) slots and 7 texts (same name other weights, other trivia, other fields; lexically, syntactically and compile-time invalid), BFS until no new (model, implementation-fingerprint) state appears; after every transition every evaluator is probed on every input against a fresh evaluator of its last accepted text, every construction/recompile is re-issued (raise again / no-op). Plus: deep cyclic and bulk histories, 60+ twin pairs (texts a normalising or weak change detector / parse cache would confuse: crc32, md5-prefix, sha, adler32, FNV, length+sum collisions; differences only inside comment-looking regions, blanks, case, quote style, NFC form of a literal) recompiled on one evaluator with the reference model as oracle; replays fall back to forked children of a pristine process image when the library keeps module-level state.",
             "Acceptance of a text is what a fresh constructor does with it; hidden module-level state is part of the state key (measured).", "3/C11"),
     "C12": (MC, T_E,
             "6 salts (absent, empty, ASCII, non-ASCII) x 40 declaration orders of 4 names x all values of the E-val alphabet x 4 weight vectors, plus 10k known answers of the position function, against md5/UTF-8/sorted-names/first-32-bits recomputed independently and the exact partition.",
@@ -61,7 +61,7 @@ CHECKS = {
             "40 ids x list/tuple populations of mixed values (n in 1..64) x 1.2k (11k) weight vectors and their cumulative forms, boundary positions through the MD5 seam, all malformed combinations, the id-less branch with every boundary answer of random.random().",
             "Seams: hashlib.md5 as seen by the binning module and random.random (effectiveness measured).", "3/C16"),
     "C17": (MC, "stateless exploration of thread interleavings of the real code under a controlled scheduler (sys.monitoring LINE/INSTRUCTION points + attribute hooks), preemption-bounded DFS, linearizability by brute force",
-            "Harnesses H1 (2-3 threads construct different texts, two with the same experiment name, sources with block comments), H2 (recompile vs calls), H3 (two recompiles of the same text then calls), H4 (recompiles of different texts); all interleavings of shared-evaluator accesses, and preemption bound 2 (thorough 3) at line points of the evaluator / wrapper modules; thread-confinement of lexer/parser/codegen instances is measured on every schedule and breaks into an escalated exploration with line points inside SLY.",
+            "Harnesses H1 (2-3 threads construct different texts, two with the same experiment name, sources with block comments), H2 (recompile vs calls), H3 (two recompiles of the same text then calls), H4 (recompiles of different texts); all interleavings of shared-evaluator accesses, and preemption bound 2 (thorough 3) at line points of the evaluator / wrapper modules; H5 (concurrent evaluation), H6_W (W sources compiled first: bounded caches), sequential epilogue after H4; thread-confinement of lexer/parser/codegen instances and module/class-level state are measured and break into an escalated exploration (line or strided function-entry points inside SLY, every schedule in a forked child of a pristine image); real Lock/RLock objects are replaced by scheduler-aware ones; the explorer is calibrated against TLC (thorough).",
             "GIL: one bytecode is atomic; C-level state invisible. Not covered: >3 threads, free-threaded builds.", "3/C17"),
     "C18": ("exploration", "exhaustive sweep of a finite numeric grid with independent textbook formulas and statistics.NormalDist as oracle",
             "n (38 values to 1e9) x p (41) x confidence (25, 1e-6..1-1e-12) x both methods; alpha on a dyadic grid of 2^15 (2^19) points plus the decades to 1e-300: lower<=upper, textbook equality, monotone in n and confidence, z symmetric and never below the true quantile, unknown method refused.",
